@@ -195,7 +195,11 @@ def run(c, prog):
     c.rule(R, "Hash, PartialEq and the ordering wrapper all derive from the blake3 hash field; `data` is emptied only by Drop; SharedString values are built only by new() (and Clone)")
     eq = prog.impl_fn("core::cmp::PartialEq", SS, "eq")
     b = core.strip(eq.body)
-    ok = b.get("k") == "Binary" and b["op"] == "==" and core.place_root(b["l"]) == ("self", ["hash"]) and core.place_root(b["r"]) == ("other", ["hash"])
+    while b.get("k") == "Block" and not b["b"]["stmts"] and "expr" in b["b"]:
+        b = core.strip(b["b"]["expr"])
+    plids = [prm.get("lid") for prm in eq.params]
+    sides = sorted([core.place_root_lid(b["l"]), core.place_root_lid(b["r"])], key=lambda x: plids.index(x[0]) if x[0] in plids else 9) if b.get("k") == "Binary" else []
+    ok = b.get("k") == "Binary" and b["op"] == "==" and len(plids) == 2 and sides == [(plids[0], ["hash"]), (plids[1], ["hash"])]
     if ok:
         c.ok(R, "eq:hash-field")
     else:
